@@ -8,6 +8,7 @@ import Driver.ProtoCmd
 import Driver.FilesCmd
 import Driver.SchedCmd
 import Driver.LruCmd
+import Driver.CodecCmd
 /-
 `raindrv`: one request per line on stdin, one answer per line on stdout.
 Unknown or malformed requests answer `bad-request` (never a default value).
@@ -29,6 +30,7 @@ def dispatch (toks : List String) : String :=
       else if cmd.startsWith "files." then filesCmd toks
       else if cmd.startsWith "sched." then schedCmd toks
       else if cmd.startsWith "lru." then lruCmd toks
+      else if cmd.startsWith "batch." || cmd.startsWith "edit." then codecCmd toks
       else none
     match r with
     | some s => s
